@@ -228,14 +228,23 @@ def lang_module(name):
             'CTLS': pyModelChecking.CTLS}[name]
 
 
-def build_formula(tree, lang):
+def build_formula(tree, lang, raw=False):
+    """Build a formula object with the classes of one logic.  With raw=True
+    the leaves below an operator are passed the way the README does it -
+    atoms as plain `str`, constants as plain `bool` - and the operator
+    constructors wrap them."""
     L = lang_module(lang) if isinstance(lang, str) else lang
     op = tree[0]
     if op == 'ap':
         return L.AtomicProposition(tree[1])
     if op == 'bool':
         return L.Bool(tree[1])
-    args = [build_formula(t, L) for t in tree[1:]]
+    args = []
+    for t in tree[1:]:
+        if raw and t[0] in ('ap', 'bool'):
+            args.append(t[1])
+        else:
+            args.append(build_formula(t, L, raw))
     return getattr(L, op)(*args)
 
 
